@@ -36,8 +36,19 @@ def _vals(names, alg="md5"):
     out = {}
     for v in names:
         h = hashlib.new(alg, f"content of {v}".encode()).hexdigest()
-        out[v] = (Meta(md5=h) if alg == "md5" else Meta(size=len(v)), HashInfo(alg, h))
+        out[v] = (Meta(md5=h) if alg == "md5" else Meta(), HashInfo(alg, h))
     return out
+
+
+def _vals_meta(names):
+    """The same abstract values, told apart by METADATA only: every value has the hash of the first one; they differ in
+    the executable bit / the size recorded (an entry whose mode changed and whose content did not)."""
+    from dvc_data.hashfile.hash_info import HashInfo
+    from dvc_data.hashfile.meta import Meta
+
+    h = hashlib.md5(f"content of {names[0]}".encode()).hexdigest()
+    metas = [Meta(md5=h), Meta(md5=h, isexec=True), Meta(md5=h, isexec=True, size=7)]
+    return {v: (metas[i % 3], HashInfo("md5", h)) for i, v in enumerate(names)}
 
 
 def _mk(listing, vals):
@@ -46,12 +57,13 @@ def _mk(listing, vals):
 
 def _abstract(d, vals):
     rev_k = {v: k for k, v in CONCRETE_KEYS.items()}
-    rev_v = {hi.value: name for name, (_, hi) in vals.items()}
+    sig = lambda m, hi: (getattr(hi, "value", None), bool(getattr(m, "isexec", False)), getattr(m, "size", None))  # noqa: E731
+    rev_v = {sig(m, hi): name for name, (m, hi) in vals.items()}
     out = {}
     for key, val in d.items():
         k = rev_k.get(tuple(key), "corrupt-key:" + "/".join(key))
-        hi = val[1] if isinstance(val, tuple) and len(val) == 2 else None
-        out[k] = rev_v.get(getattr(hi, "value", None), "corrupt")
+        m, hi = val if isinstance(val, tuple) and len(val) == 2 else (None, None)
+        out[k] = rev_v.get(sig(m, hi), "corrupt")
     return out
 
 
@@ -105,15 +117,18 @@ def _listing(combo):
 
 def _work(args):
     chunk, valnames, policies, e2e_idx, sandbox = args
-    vals = _vals(valnames)
+    vals_hash, vals_meta = _vals(valnames), _vals_meta(valnames)
     odb = None
     recs = []
     for idx, (ca, co, ct) in chunk:
         a, o, t = _listing(ca), _listing(co), _listing(ct)
         calls = []
+        # every third triple tells its values apart by metadata only (same hash, other executable bit / size)
+        meta_only = idx % 3 == 2
+        vals = vals_meta if meta_only else vals_hash
         for pol in policies:
             calls.append({"pol": pol, "fwd": _call(a, o, t, pol, vals), "rev": _call(a, t, o, pol, vals)})
-        if idx in e2e_idx:
+        if idx in e2e_idx and not meta_only:      # (a stored listing carries no metadata)
             if odb is None:
                 from dvc_objects.fs.local import LocalFileSystem
 
